@@ -475,6 +475,21 @@ func listing[S any](c *Ctx, want []E[S]) hseq.Seq[S] {
 				return seq
 			}
 		}
+		if n < len(seq) && n <= 4 {
+			// a sequence with more entries than functions: the i-th function still gets the i-th entry
+			long := append(append(hseq.Seq[S]{}, sub...), seq[0], seq[len(seq)-1])
+			var gl []int
+			if p := catch(func() { gl = fmapN(n, long) }); p != nil {
+				c.Viol("fmapn-longer", "FMap%d over a sequence of %d entries panicked: %v", n, len(long), short(p))
+				return seq
+			}
+			for i := range gl {
+				if gl[i] != long[i].ID*10+i {
+					c.Viol("fmapn-longer", "FMap%d over a sequence of %d entries: function %d received entry %d, want entry %d", n, len(long), gl[i]%10, gl[i]/10, long[i].ID)
+					return seq
+				}
+			}
+		}
 	}
 	return seq
 }
